@@ -293,8 +293,8 @@ theorem C04_abort_exactly_once_acceptor_close (n : NetSt) (now : Int) (name : St
     ∧ ∃ s', (n.accClose now name).1.tcp? name = some s'
         ∧ s'.acceptOp = none ∧ s'.recvH = none ∧ s'.waitRecvH = none ∧ s'.sendH = none ∧ s'.connectH = none
         ∧ s'.isOpen = false ∧ s'.fwd = none ∧ s'.acc.map (·.conns) = some [] :=
-  ⟨(accClose_posts n now name s a hs ha).1, invokesOf_noInvoke (ni_accClose n now name),
-   (accClose_posts n now name s a hs ha).2⟩
+  have ⟨h1, s', hs', a1, a2, a3, a4, a5, a6, a7, a8, _⟩ := accClose_posts n now name s a hs ha
+  ⟨h1, invokesOf_noInvoke (ni_accClose n now name), s', hs', a1, a2, a3, a4, a5, a6, a7, a8⟩
 
 /-- **Resolver `cancel()`**: one `operation_aborted` post per queued lookup, in queue order, carrying
     that lookup's handler; the queue is empty afterwards (`C14_cancel` adds: never completed again). -/
